@@ -9,6 +9,7 @@ open Pw
 def isRow : BMsg → Bool | .dataRow _ => true | _ => false
 def isComplete : BMsg → Bool | .complete _ => true | _ => false
 def isReady : BMsg → Bool | .ready _ => true | _ => false
+def isErr : BMsg → Bool | .error _ => true | _ => false
 def isRowOk : Event → Bool | .rowRes none => true | _ => false
 
 /-! ### one-step behaviour of the writer operations -/
@@ -151,6 +152,7 @@ structure Facts (d : DW) (s s' : Sess) : Prop where
   closedSilent : d.closed = true → s'.out = s.out
   complete : s'.out.countP isComplete ≤ s.out.countP isComplete + (if d.closed then 0 else 1)
   ready : s'.out.countP isReady = s.out.countP isReady
+  errs : s'.out.countP isErr = s.out.countP isErr
 
 /-- composition: one writer operation `(d, s) ↦ (d', s2)` followed by a run with `Facts` -/
 theorem Facts.step {d d' : DW} {s s2 s3 : Sess}
@@ -159,17 +161,18 @@ theorem Facts.step {d d' : DW} {s s2 s3 : Sess}
     (hcl : d.closed = true → s2.out = s.out ∧ d'.closed = true)
     (hcomp : s2.out.countP isComplete + (if d'.closed then 0 else 1)
               ≤ s.out.countP isComplete + (if d.closed then 0 else 1))
-    (hready : s2.out.countP isReady = s.out.countP isReady)
+    (hready : s2.out.countP isReady = s.out.countP isReady ∧ s2.out.countP isErr = s.out.countP isErr)
     (f : Facts d' s2 s3) : Facts d s s3 := by
-  refine ⟨?_, ?_, ?_, ?_, ?_⟩
+  refine ⟨?_, ?_, ?_, ?_, ?_, ?_⟩
   · have := f.rows; omega
   · intro h1 h2; obtain ⟨a, b⟩ := hwr h1 h2; exact f.written a b
   · intro hc; obtain ⟨a, b⟩ := hcl hc; rw [f.closedSilent b, a]
   · have := f.complete; omega
-  · rw [f.ready, hready]
+  · rw [f.ready, hready.1]
+  · rw [f.errs, hready.2]
 
 theorem Facts.refl (d : DW) (s : Sess) : Facts d s s :=
-  ⟨rfl, fun _ h => h, fun _ => rfl, by split <;> omega, rfl⟩
+  ⟨rfl, fun _ h => h, fun _ => rfl, by split <;> omega, rfl, rfl⟩
 
 theorem rowsSince_neutral (e : Event) (r : List Event)
     (h1 : isRowOk e = false) (h3 : ∀ a b c, e ≠ .exec a b c) : rowsSince (e :: r) = rowsSince r := by
@@ -226,7 +229,7 @@ theorem runProg_facts : ∀ (p : Prog) (d : DW) (s : Sess), Facts d s (runProg p
           exact ⟨by omega, b⟩
         · intro h; rw [hc] at h; cases h
         · simp [Sess.log, ho, List.countP_cons, isComplete, hc, hc']
-        · simp [Sess.log, ho, List.countP_cons, isReady]
+        · simp [Sess.log, ho, List.countP_cons, isReady, isErr]
       | some e =>
         obtain ⟨rfl, ho, he⟩ := dwRow_err d s vals e d' s' hr
         apply Facts.step (d' := d') (s2 := s'.log (.rowRes (some e))) _ _ _ _ _ (ih (some e) d' _)
@@ -260,7 +263,7 @@ theorem runProg_facts : ∀ (p : Prog) (d : DW) (s : Sess), Facts d s (runProg p
     · by_cases hc : d.closed = true
       · simp [Sess.log, (hcl hc).1]
       · simp only [Bool.not_eq_true] at hc
-        rcases (hop hc).2 with ho | ho <;> simp [Sess.log, ho, List.countP_cons, isReady]
+        rcases (hop hc).2 with ho | ho <;> simp [Sess.log, ho, List.countP_cons, isReady, isErr]
   | empty k ih =>
     intro d s
     simp only [runProg]
@@ -306,18 +309,18 @@ theorem runProg_facts : ∀ (p : Prog) (d : DW) (s : Sess), Facts d s (runProg p
       exact ⟨by omega, b⟩
     · intro hc; exact ⟨by simp [Sess.log, hsil hc], by rw [hcl]; exact hc⟩
     · rcases ho with ho | ho <;> simp [Sess.log, ho, hcl, List.countP_cons, isComplete]
-    · rcases ho with ho | ho <;> simp [Sess.log, ho, List.countP_cons, isReady]
+    · rcases ho with ho | ho <;> simp [Sess.log, ho, List.countP_cons, isReady, isErr]
   | copyRead k ih =>
     intro d s
     simp only [runProg]
     split
     · exact logNeutral d s _ _ rfl (by intro n h; cases h) (by intro a b c h; cases h) (ih _ d _)
     · split
-      · exact ⟨rfl, fun _ h => h, fun _ => rfl, by simp, rfl⟩
+      · exact ⟨rfl, fun _ h => h, fun _ => rfl, by simp, rfl, rfl⟩
       · rename_i r i _
         have h := logNeutral d { s with inp := i } (.copyRes r) _ (by cases r <;> rfl)
           (by intro n h; cases h) (by intro a b c h; cases h) (ih r d _)
-        exact ⟨h.rows, h.written, h.closedSilent, h.complete, h.ready⟩
+        exact ⟨h.rows, h.written, h.closedSilent, h.complete, h.ready, h.errs⟩
   | binNew k ih =>
     intro d s
     simp only [runProg]
@@ -332,18 +335,18 @@ theorem runProg_facts : ∀ (p : Prog) (d : DW) (s : Sess), Facts d s (runProg p
         fun a b => h.written (by rw [hs1'.2]; exact a) (by rw [hs1'.2]; exact b),
         fun hc => by rw [h.closedSilent hc, hs1'.1],
         by have := h.complete; rw [hs1'.1] at this; exact this,
-        by rw [h.ready, hs1'.1]⟩
+        by rw [h.ready, hs1'.1], by rw [h.errs, hs1'.1]⟩
   | binRead k ih =>
     intro d s
     simp only [runProg]
     split
     · exact logNeutral d s _ _ rfl (by intro n h; cases h) (by intro a b c h; cases h) (ih _ d _)
     · split
-      · exact ⟨rfl, fun _ h => h, fun _ => rfl, by simp, rfl⟩
+      · exact ⟨rfl, fun _ h => h, fun _ => rfl, by simp, rfl, rfl⟩
       · rename_i b0 _ r b i _
         have h := logNeutral { d with bin := some b } { s with inp := i } (.binRes r) _ (by cases r <;> rfl)
           (by intro n h; cases h) (by intro a b c h; cases h) (ih r _ _)
-        exact ⟨h.rows, h.written, h.closedSilent, h.complete, h.ready⟩
+        exact ⟨h.rows, h.written, h.closedSilent, h.complete, h.ready, h.errs⟩
 
 /-! ### the writer clauses of C05, for every handler program -/
 
